@@ -35,6 +35,8 @@ def eval_mtx_helpers(env):
     J2 = env.deriv(lambda t: E._compute_finite_vortex(r1, t), r2)
     env.eq("C01", "_compute_finite_vortex_deriv1(r1,r2,D) == (d f/d r1) D", env.call(E._compute_finite_vortex_deriv1, r1, r2, D), xp.dot(J1, D) if not env.sym else _mm(J1, D))
     env.eq("C01", "_compute_finite_vortex_deriv2(r1,r2,D) == (d f/d r2) D", env.call(E._compute_finite_vortex_deriv2, r1, r2, D), xp.dot(J2, D) if not env.sym else _mm(J2, D))
+    env.eq("C01", "antisymmetry lemma: _compute_finite_vortex(r1, r2) == -_compute_finite_vortex(r2, r1)",
+           env.call(E._compute_finite_vortex, r1, r2), -env.call(E._compute_finite_vortex, r2, r1))
     u = env.var("u", (3,))
     r = env.var("r", (3,))
     Jr = env.deriv(lambda t: E._compute_semi_infinite_vortex(u, t), r)
